@@ -351,16 +351,48 @@ def verify_empty_tagged(reg):
     return verify_refines(reg, fn, contract, make, "L1/writer/write_empty_tagged_fields/refines-contract")
 
 
+def tagged_writers_in_use():
+    """the distinct payload writers that real plans pass to write_tagged_field: leaf writers by name, and
+    one representative closure per array factory x item / per nested entity class kind"""
+    import kio.serial.writers as W
+    from checks import l2
+    from contracts.entity import plan_callables
+    from kio.serial import entity_writer
+    leaf, closures = set(), {}
+    for T in l2.all_entities():
+        _, tagged = plan_callables(entity_writer(T))
+        for _, fn in tagged.values():
+            name = getattr(fn, "__name__", "")
+            if getattr(W, name, None) is fn:
+                leaf.add(name)
+            else:
+                closures.setdefault(getattr(fn, "__qualname__", "?").split(".<locals>.")[0] + "/" +
+                                    str(sorted(getattr(c, "__name__", "?") for c in (x.cell_contents for x in (fn.__closure__ or ()))
+                                               if callable(c) and not isinstance(c, type))[:1]), fn)
+    return sorted(leaf), [closures[k] for k in sorted(closures)][:12]
+
+
 def verify_tagged_field(reg):
-    """write_tagged_field with an arbitrary contracted payload writer (parametric in the
-    payload encoding: an abstract writer whose contract is `appends Enc(d, value)`)"""
+    """write_tagged_field against its contract, for every payload writer that real plans hand to it (the proof is
+    parametric in the payload writer's CONTRACT, but the body could special-case particular writer functions, so each
+    one in use is an instantiation of its own)"""
     import kio.serial.writers as W
     fn = W.write_tagged_field
     contract = reg.lookup(fn)
     results = []
-    for wname in ("write_int32", "write_compact_string", "write_uuid"):
-        wfn = getattr(W, wname)
+    try:
+        leaf, closures = tagged_writers_in_use()
+    except Exception:        # noqa: BLE001
+        leaf, closures = [], []
+    names = sorted(set(leaf) | {"write_int32", "write_compact_string", "write_uuid"})
+    writers = [(n, getattr(W, n)) for n in names if hasattr(W, n)] + [(f"closure:{getattr(c, '__qualname__', '?')}", c) for c in closures]
+    for wname, wfn in writers:
         wc = reg.lookup(wfn)
+        if wc is None:
+            from contracts import entity as CE
+            wc = CE.extra_lookup(wfn, reg)
+        if wc is None or not getattr(wc, "kinds", None):
+            continue
         for kind in wc.kinds[:1]:
             def make(ctx, wfn=wfn, wc=wc, kind=kind):
                 b, s = Sink(ctx), Sink(ctx)
@@ -369,6 +401,11 @@ def verify_tagged_field(reg):
                 req = wc.requires(ctx, value)
                 if req is not True:
                     ctx.assume(req)
+                # Dom: the payload of a tagged field is shorter than 2^35 bytes (its size is a 5-byte varint)
+                payload = Enc(wc.desc(value), value)
+                for f_ in kafka.length_facts(payload):
+                    ctx.assume(f_)
+                ctx.assume(z3.And(zint(payload.length()) >= 0, zint(payload.length()) < domains.UV5))
                 return [b, tag, wfn, value], [s, tag, wfn, value], [("sink", b, s)], {"value": value, "tag": tag}
             results.append(verify_refines(reg, fn, contract, make,
                                           f"L1/writer/write_tagged_field[{wname}]/refines-contract"))
@@ -395,7 +432,43 @@ def abstract_item_registry():
     return reg
 
 
-def verify_arrays(which="wr", clauses=("match", "null", "trunc", "general")):
+def concrete_array_items():
+    """(factory name, item function name) for every array closure over a LEAF codec that occurs in the real
+    plan of some class: the parametric proof over an abstract item says nothing about a factory that
+    special-cases particular item functions (by identity), so each instantiation in use is verified too"""
+    import kio.serial.readers as R
+    import kio.serial.writers as W
+    from checks import l2
+    from contracts.entity import _cells, plan_callables
+    from kio.serial import entity_reader, entity_writer
+    out = set()
+
+    def visit(fn):
+        q = getattr(fn, "__qualname__", "")
+        if "<locals>" not in q or getattr(fn, "__module__", "") not in ("kio.serial.readers", "kio.serial.writers"):
+            return
+        factory = q.split(".<locals>.")[0]
+        c = _cells(fn)
+        item = c.get("item_writer") or c.get("item_reader")
+        if item is None:
+            cand = [v for v in c.values() if callable(v) and not isinstance(v, type)]
+            item = cand[0] if len(cand) == 1 else None
+        if item is None:
+            return
+        mod = W if fn.__module__ == "kio.serial.writers" else R
+        if getattr(mod, getattr(item, "__name__", ""), None) is item and hasattr(mod, factory):
+            out.add((fn.__module__.rsplit(".", 1)[1], factory, item.__name__))
+    for T in l2.all_entities():
+        for api in (entity_writer, entity_reader):
+            reg_, tag_ = plan_callables(api(T))
+            for f in reg_.values():
+                visit(f)
+            for _, f in tag_.values():
+                visit(f)
+    return sorted(out)
+
+
+def verify_arrays(which="wr", clauses=("match", "null", "trunc", "general"), concrete=True):
     import kio.serial.readers as R
     import kio.serial.writers as W
     reg = abstract_item_registry()
@@ -418,6 +491,27 @@ def verify_arrays(which="wr", clauses=("match", "null", "trunc", "general")):
             results.append(r)
             continue
         results += verify_reader(reg, closure, c, label=f"{factory.__name__}[item]", clauses=clauses)
+    if concrete:
+        creg = CS.Registry()
+        for modname, fname, iname in concrete_array_items():
+            if modname == "writers" and "w" in which:
+                closure = getattr(W, fname)(getattr(W, iname))
+                c = creg.lookup(closure)
+                if c is None:
+                    r = Result(f"L1/writer/{fname}[{iname}]")
+                    r.undecided.append((r.unit, "array closure over a leaf codec is not recognised"))
+                    results.append(r)
+                    continue
+                results += verify_writer(creg, closure, c, label=f"{fname}[{iname}]")
+            elif modname == "readers" and "r" in which:
+                closure = getattr(R, fname)(getattr(R, iname))
+                c = creg.lookup(closure)
+                if c is None:
+                    r = Result(f"L1/reader/{fname}[{iname}]")
+                    r.undecided.append((r.unit, "array closure over a leaf codec is not recognised"))
+                    results.append(r)
+                    continue
+                results += verify_reader(creg, closure, c, label=f"{fname}[{iname}]", clauses=clauses)
     return results
 
 
